@@ -40,6 +40,9 @@ structure Exec where
   cache   : Cache     -- Evictor.podsEvicted
 deriving Repr, DecidableEq
 
+/-- `cache.defaultExpiration` in seconds (2 * time.Minute); `NewEvictor` uses `NewCacheDefault()`. -/
+def defaultTTLSeconds : Int := 120
+
 /-- `Evictor.IsPodEvicted` / `DefaultEvictionExecutor.IsPodEvicted` (non-nil pod). -/
 def Exec.isEvicted (x : Exec) (now : Int) (p : Nat) : Bool := cacheGet x.cache now p
 
